@@ -155,6 +155,8 @@ def _opts_for(dev, call):
         return ['--fail', '%d:%d' % (i, val)]
     if kind == 'retzero':
         return ['--retzero', str(i)]
+    if kind == 'sticky':
+        return ['--failfrom', '%d:%d' % (i, val)]
     n = call.get('a', [0, 0, 0])[2]
     if val == 'half':
         val = max(1, n // 2)
@@ -190,7 +192,8 @@ def run(ck):
         for c in t['calls'][:800]:
             if c['name'] in SKIP:
                 continue
-            for dev in menu(c['name'], ck.tier):
+            sticky = [('sticky', E.EINTR), ('sticky', E.EAGAIN)] if c['name'] in ('open', 'openat', 'read', 'write', 'writev', 'close', 'connect', 'sendto', 'socket', 'newfstatat', 'ioctl', 'lseek') else []
+            for dev in menu(c['name'], ck.tier) + sticky:
                 if dev[0] == 'short' and c['name'] not in ('read', 'write', 'sendto', 'pread64', 'pwrite64'):
                     continue
                 jobs.append((n, c, dev))
